@@ -35,6 +35,7 @@ import tunits as tu
 import cirq
 import cirq_google as cg
 from cirq_google.api import v2
+from cirq_google.api.v2 import sweeps as v2_sweeps
 from cirq_google.experimental.ops import CouplerPulse
 from cirq_google.study.device_parameter import DeviceParameter, Metadata
 from cirq_google.study.finite_random_variable import FiniteRandomVariable
@@ -45,15 +46,19 @@ from mc.ref import embed as E
 
 PROPERTY = "C16"
 LEVEL = "exploration"
-RULE = ("programs: every letter of a ~230 letter vocabulary of placed operations alone, ALL ordered pairs of the "
-        "pair vocabulary (thorough: also ALL ordered triples of a ~60 letter core) x collision skeletons (same moment, "
-        "consecutive, repeated moment, sandwich, op reuse), decorated variants (moment tags, circuit tags, frozen "
-        "circuits, shared sub-circuits) and multi-program / circuit-function forms; sweeps: all leaves, all ordered "
-        "pairs of leaves under every combinator, depth-2 terms, x float32/float64; results: ALL bit arrays up to the "
-        "length bound, all record tensors of the listed shapes; devices: all (qubit subset, pair subset, gate-kind "
-        "subset, orientation, duration) specifications of a 2x2 grid.  A program case is non-trivial when the "
-        "serialized constants table is referenced more than once by at least one entry or holds >= 2 operations; "
-        "distinct = distinct case descriptor")
+RULE = ("programs: every letter of a 263 letter vocabulary of placed operations alone (4 small circuits each), ALL ordered "
+        "pairs of the 218 letter pair vocabulary x 5 collision skeletons (same moment, consecutive, repeated moment, "
+        "sandwich, op reuse), thorough: also ALL ordered triples of a 59 letter core x 4 skeletons; ALL ordered pairs of "
+        "the core in decorated variants (moment tags, circuit tags, frozen input, shared / nearly equal sub-circuits) and "
+        "in multi-program list / dict / circuit-function forms; sweeps: every leaf, every ordered pair of leaves under "
+        "Zip / ZipLongest / Product / Concat, all depth-2 terms over 7 leaves, ListSweeps, x float32/float64, sweepables "
+        "and run contexts (plain / compressed, scalar / per-sweep repetitions), v1 zip-product terms; results: ALL bit "
+        "arrays of length 0..16 (thorough 0..18) plus patterns at lengths 63..66, all record tensors with reps*bits <= 12 "
+        "(patterns above) for 7 measurement layouts x reps {0,1,7,8,9} x 4 sweep structures, all measurement-letter "
+        "sequences of length <= 3; devices: all (qubit subset of a 2x2 grid, pair subset, gate-kind subset, pair "
+        "orientation, duration pattern) specifications.  A program case is non-trivial when the serialized constants "
+        "table holds >= 2 operations or one of its entries is referenced more than once; distinct = distinct case "
+        "descriptor (stage, indices)")
 TECHNIQUE = ("bounded-exhaustive enumeration of programs / sweeps / result tensors / device specifications with "
              "structural round-trip comparison (float32-tolerant, global-phase-tolerant) and independent reference "
              "encoders for bit packing and device validation")
@@ -160,6 +165,17 @@ def val_close(v1, v2, rel=REL):
             return False
     if isinstance(v1, cirq.Duration):
         return isinstance(v2, cirq.Duration) and val_close(v1.total_picos(), v2.total_picos(), rel)
+    if isinstance(v1, cirq.PeriodicValue) or isinstance(v2, cirq.PeriodicValue):
+        if not (isinstance(v1, cirq.PeriodicValue) and isinstance(v2, cirq.PeriodicValue)):
+            return False
+        if not val_close(v1.period, v2.period, rel):
+            return False
+        if val_close(v1.value, v2.value, rel):
+            return True
+        if _is_num(v1.value) and _is_num(v2.value) and _is_num(v1.period):
+            dist = abs(v1.value - v2.value) % abs(v1.period)
+            return min(dist, abs(v1.period) - dist) <= rel * max(abs(v1.value), abs(v2.value))
+        return False
     if isinstance(v1, (list, tuple)):
         return (type(v1) is type(v2) and len(v1) == len(v2)
                 and all(val_close(x, y, rel) for x, y in zip(v1, v2)))
@@ -191,6 +207,38 @@ def val_close(v1, v2, rel=REL):
 
 
 _RES_PTS = ((0.3717, -0.8123, 1.2931), (1.1173, 0.4519, -0.6677))
+
+
+def _num_leaves(v, out):
+    if isinstance(v, cirq.PeriodicValue):
+        _num_leaves(v.value, out)
+    elif isinstance(v, cirq.Duration):
+        _num_leaves(v.total_picos(), out)
+    elif isinstance(v, sympy.Basic):
+        for a in sympy.preorder_traversal(v):
+            if a.is_number and a.is_real:
+                out.append(abs(float(a)))
+    elif _is_num(v):
+        out.append(abs(v))
+    elif isinstance(v, (list, tuple, set, frozenset)):
+        for x in v:
+            _num_leaves(x, out)
+    elif isinstance(v, dict):
+        for x in v.values():
+            _num_leaves(x, out)
+    elif isinstance(v, cirq.Gate) and hasattr(v, "_value_equality_values_"):
+        _num_leaves(v._value_equality_values_(), out)
+    return out
+
+
+def _unitary_atol(g):
+    """Tolerance of the unitary comparison: float32 rounding of the gate's own arguments (error <= pi * 6e-8 * |arg|)."""
+    try:
+        leaves = _num_leaves(g._value_equality_values_(), []) if hasattr(g, "_value_equality_values_") else []
+    except Exception:
+        leaves = []
+    scale = max(leaves) if leaves else 1.0
+    return max(2e-6 * min(1.0, scale), 1e-13)
 
 
 def gate_diff(g1, g2):
@@ -240,7 +288,7 @@ def gate_diff(g1, g2):
             return f"gate {g1!r} became {g2!r} (cannot compare: {type(ex).__name__}: {ex})"
         if u1 is None or u2 is None:
             return f"gate {g1!r} became {g2!r}"
-        if u1.shape != u2.shape or not E.eq_up_to_phase(u1, u2, 2e-6):
+        if u1.shape != u2.shape or not E.eq_up_to_phase(u1, u2, _unitary_atol(g1)):
             return f"gate {g1!r} became {g2!r} (unitaries differ beyond a global phase)"
     return None
 
@@ -275,7 +323,9 @@ def tags_diff(ts1, ts2, what):
 def op_diff(o1, o2):
     """None when o2 is an acceptable image of o1, else (kind, reason)."""
     try:
-        if o1 == o2 and list(o1.tags) == list(o2.tags):
+        # fast path; not for CircuitOperations: FrozenCircuit/Moment equality ignores moment tags
+        if (o1 == o2 and list(o1.tags) == list(o2.tags)
+                and not isinstance(o1.untagged.without_classical_controls().untagged, cirq.CircuitOperation)):
             return None
     except Exception:
         pass
@@ -389,7 +439,7 @@ def _nontrivial_program(msg):
     return any(v > 1 for v in refs.values())
 
 
-def check_program(circ, unordered=False):
+def check_program(circ, unordered=False, stability=True):
     """Round-trip one circuit. Returns (None, nontrivial) or ((kind, msg), nontrivial)."""
     msg = S.serialize(circ)
     nontrivial = _nontrivial_program(msg)
@@ -397,17 +447,21 @@ def check_program(circ, unordered=False):
     d = circuit_diff(circ, back)
     if d:
         return (d[0], f"deserialize(serialize(c)) differs from c: {d[1]}\n c = {circ!r}\n back = {back!r}"), nontrivial
+    if not stability:
+        return None, nontrivial
     # stability: serializing the deserialized circuit, deserializing and serializing again gives the same bytes
     m1 = S.serialize(back)
     back2 = S.deserialize(_hop(m1))
-    d = circuit_diff(back, back2)
-    if d:
-        return ("stability", f"second round trip changes the circuit: {d[1]}\n c = {circ!r}\n first = {back!r}\n "
-                             f"second = {back2!r}"), nontrivial
-    if not unordered:
-        m2 = S.serialize(back2)
-        if m1.SerializeToString(deterministic=True) != m2.SerializeToString(deterministic=True):
-            return ("stability", f"re-serialization is not stable for c = {circ!r}:\n{m1}\n---\n{m2}"), nontrivial
+    if unordered:
+        # set-valued arguments / several classical controls have no canonical wire order: compare structurally
+        d = circuit_diff(back, back2)
+        if d:
+            return ("stability", f"second round trip changes the circuit: {d[1]}\n c = {circ!r}\n first = {back!r}\n "
+                                 f"second = {back2!r}"), nontrivial
+        return None, nontrivial
+    m2 = S.serialize(back2)
+    if m1.SerializeToString(deterministic=True) != m2.SerializeToString(deterministic=True):
+        return ("stability", f"re-serialization is not stable for c = {circ!r}:\n{m1}\n---\n{m2}"), nontrivial
     return None, nontrivial
 
 
@@ -602,7 +656,7 @@ def vocab(seed):
     add("CO(until)", lambda q0, q1, k: cirq.CircuitOperation(subm(q0, q1), use_repetition_ids=False,
                                                          repeat_until=cirq.KeyCondition(cirq.MeasurementKey("m"))))
     add("CO(tagged sub)", lambda q0, q1, k: cirq.CircuitOperation(cirq.FrozenCircuit(
-        cirq.Moment(cirq.X(q0).with_tags(cal_x), tags=(cal_x,)), tags=("ct", cal_x))))
+        cirq.Moment((cirq.Y(q0) ** 0.125).with_tags(cal_x), tags=(cal_x,)), tags=("ct", cal_x))))
     add("CO(sub1)+tag", lambda q0, q1, k: cirq.CircuitOperation(sub1(q0, q1)).with_tags("t"),
         find="circuit_op_tags_dropped")
     # --- waits, resets
@@ -709,31 +763,63 @@ def vocab(seed):
 
 
 def place(V, li, slot):
-    q0, q1 = SLOTS[slot]
-    return V["letters"][li]["fn"](q0, q1, slot)
+    """The (immutable) operation of letter li on qubit slot `slot` (cached per worker)."""
+    cache = V.setdefault("placed", {})
+    op = cache.get((li, slot))
+    if op is None:
+        q0, q1 = SLOTS[slot]
+        op = cache[(li, slot)] = V["letters"][li]["fn"](q0, q1, slot)
+    return op
 
 
 # =============================================================================================
 # (a) program stages
 # =============================================================================================
 
-def _run_circuits(named_circuits, unordered, find=None):
-    """named_circuits: list of (label, thunk building the circuit)."""
+F_MOMENT_TAGS = "moment_tags_shared_by_equal_moments"
+
+
+def _all_moments(circ, out):
+    for m in circ.moments:
+        out.append(m)
+        for op in m.operations:
+            u = op.untagged.without_classical_controls().untagged
+            if isinstance(u, cirq.CircuitOperation):
+                _all_moments(u.circuit, out)
+    return out
+
+
+def _equal_moments_with_different_tags(circ):
+    ms = _all_moments(circ, [])
+    return any(ms[i] == ms[j] and list(ms[i].tags) != list(ms[j].tags)
+               for i in range(len(ms)) for j in range(i + 1, len(ms)))
+
+
+def _run_circuits(named_circuits, unordered, find=None, stable_labels=None, skip_if=None):
+    """named_circuits: list of (label, thunk building the circuit); the stability (second round trip) check runs
+    on every circuit, or only on those whose label is in stable_labels."""
     n = 0
     nontriv = False
     for label, thunk in named_circuits:
         circ = thunk()
+        if skip_if is not None and skip_if(circ):
+            continue
+        stab = stable_labels is None or label in stable_labels
         if find is not None:
             try:
-                d, nt = check_program(circ, unordered)
+                d, nt = check_program(circ, unordered, stab)
             except Exception as ex:
                 return bad(f"[{label}] {type(ex).__name__}: {ex}\n c = {circ!r}", kind=find)
             if d:
                 return bad(f"[{label}] {d[1]}", kind=find)
         else:
-            d, nt = check_program(circ, unordered)
+            d, nt = check_program(circ, unordered, stab)
             if d:
-                return bad(f"[{label}] {d[1]}", kind=d[0])
+                kind = d[0]
+                if kind == "moment_tags" and _equal_moments_with_different_tags(circ):
+                    # root cause classification: Moment.__eq__ ignores tags, so the constants table shares the entry
+                    kind = F_MOMENT_TAGS
+                return bad(f"[{label}] {d[1]}", kind=kind)
         nontriv = nontriv or nt
         n += 1
     return good(nontrivial=nontriv, circuits=n)
@@ -741,7 +827,9 @@ def _run_circuits(named_circuits, unordered, find=None):
 
 def make_letter_stage(seed):
     V = vocab(seed)
-    cases = list(range(len(V["letters"])))
+    # (letters that currently expose suspected defects are ordered last so that they cannot hide anything new)
+    cases = [i for i, l in enumerate(V["letters"]) if l["find"] is None]
+    cases += [i for i, l in enumerate(V["letters"]) if l["find"] is not None]
 
     def run(li):
         L = V["letters"][li]
@@ -777,7 +865,7 @@ def make_moment_tag_stage(seed):
             ("tagged,plain", lambda: cirq.Circuit([cirq.Moment(x0(), tags=("mt",)), cirq.Moment(x0())])),
             ("tag a,tag b", lambda: cirq.Circuit([cirq.Moment(x0(), tags=("ma",)), cirq.Moment(x0(), tags=("mb", "ma"))])),
         ]
-        return _run_circuits(circuits, L["unordered"], find="moment_tags_shared_by_equal_moments")
+        return _run_circuits(circuits, L["unordered"], find=F_MOMENT_TAGS)
 
     return CaseStage("prog_moment_tags", cases, run, describe=lambda li: [li, V["letters"][li]["name"]])
 
@@ -804,7 +892,8 @@ def make_pair_stage(seed):
     def run(case):
         i, j = case
         Ls = V["letters"]
-        return _run_circuits(_pair_circuits(V, i, j), Ls[i]["unordered"] or Ls[j]["unordered"])
+        return _run_circuits(_pair_circuits(V, i, j), Ls[i]["unordered"] or Ls[j]["unordered"],
+                             stable_labels=("op reuse",))
 
     return CaseStage("prog_pairs", cases, run,
                      describe=lambda c: [c, V["letters"][c[0]]["name"], V["letters"][c[1]]["name"]])
@@ -834,7 +923,8 @@ def make_triple_stage(seed):
     def run(case):
         i, j, k = case
         Ls = V["letters"]
-        return _run_circuits(_triple_circuits(V, i, j, k), any(Ls[x]["unordered"] for x in case))
+        return _run_circuits(_triple_circuits(V, i, j, k), any(Ls[x]["unordered"] for x in case),
+                             stable_labels=("op reuse",))
 
     return CaseStage("prog_triples", cases, run,
                      describe=lambda c: [c] + [V["letters"][x]["name"] for x in c])
@@ -849,8 +939,10 @@ def _decor_circuits(V, i, j):
     F = cirq.FrozenCircuit
     CO = cirq.CircuitOperation
     return [
-        ("moment+circuit tags", lambda: cirq.Circuit([M(x0(), tags=(cal_x, "mt")), M(y0(), tags=("mt",))],
-                                                     tags=("ct", cal_x, "mt"))),
+        # (moments that are equal but for their tags are the subject of the prog_moment_tags stage: keep them apart)
+        ("moment+circuit tags", lambda: cirq.Circuit([M(x0(), tags=(cal_x, "mt", cal_x)),
+                                                      M(y0(), tags=(cal_x, "mt", cal_x) if x0() == y0() else ("mt",))],
+                                                     tags=("ct", cal_x, "mt", "ct"))),
         ("equal tagged moments", lambda: cirq.Circuit([M(x0(), tags=("mt",)), M(y0(), tags=("mt",)), M(x0(), tags=("mt",))])),
         ("frozen input", lambda: F(M(x0()), M(y0()), tags=("ft",))),
         ("sub-circuit twice", lambda: cirq.Circuit([M(CO(F(x0(), y1()))), M(CO(F(x0(), y1()), repetitions=2)), M(x0())])),
@@ -868,7 +960,10 @@ def make_decor_stage(seed):
     def run(case):
         i, j = case
         Ls = V["letters"]
-        return _run_circuits(_decor_circuits(V, i, j), Ls[i]["unordered"] or Ls[j]["unordered"])
+        # circuits in which two moments are equal but for their tags (e.g. an untagged moment of a sub-circuit and a
+        # tagged top-level moment) are the subject of the prog_moment_tags stage and are not repeated here
+        return _run_circuits(_decor_circuits(V, i, j), Ls[i]["unordered"] or Ls[j]["unordered"],
+                             skip_if=_equal_moments_with_different_tags)
 
     return CaseStage("prog_decor", cases, run,
                      describe=lambda c: [c, V["letters"][c[0]]["name"], V["letters"][c[1]]["name"]])
@@ -950,3 +1045,911 @@ def make_multi_stage(seed):
 
     return CaseStage("prog_multi", cases, run,
                      describe=lambda c: [c, V["letters"][c[0]]["name"], V["letters"][c[1]]["name"]])
+
+
+# =============================================================================================
+# (b) sweeps and run contexts
+# =============================================================================================
+
+def _sweep_leaves(seed):
+    g, g2 = core.generic(seed), core.generic(seed, 1)
+    ns, us, GHz = tu.ns, tu.us, tu.GHz
+    dp = DeviceParameter(path=["p", "q"], idx=2, units="GHz")
+    L = []
+
+    def add(name, sw, find=None, comb=True):
+        L.append(dict(name=name, sweep=sw, find=find, comb=comb and find is None))
+
+    add("unit", cirq.UnitSweep)
+    add("Pa3", cirq.Points("a", [0.25, 0.1, 2.5]))
+    add("Pb2i", cirq.Points("b", [1, 2]))
+    add("Pb3g", cirq.Points("b", [g, -g2, 7]))
+    add("Pb big", cirq.Points("b", [2 ** 30, 2 ** 31 + 1]), comb=False)
+    add("Pb np", cirq.Points("b", [np.float32(0.1), np.int64(3), np.float64(0.3)]), comb=False)
+    add("Pc float", cirq.Points("c", [0.1]))
+    add("Pc int", cirq.Points("c", [3]))
+    add("Pc None", cirq.Points("c", [None]), comb=False)
+    add("Pc str", cirq.Points("c", ["x"]), comb=False)
+    add("Pc True", cirq.Points("c", [True]), comb=False)
+    add("Pc 2**40", cirq.Points("c", [2 ** 40]), comb=False)
+    add("Pc unit", cirq.Points("c", [5 * ns]))
+    add("Pc np", cirq.Points("c", [np.float32(0.1)]), comb=False)
+    add("Pu3", cirq.Points("u", [5 * ns, 0.25 * us, 0.1 * us]))
+    add("Pu2 GHz", cirq.Points("u", [0.1 * GHz, 5 * GHz]), comb=False)
+    add("Pa dp", cirq.Points("a", [0.25, 0.5], metadata=dp))
+    add("Pa dp const", cirq.Points("a", [0.25], metadata=dp), comb=False)
+    add("Pa dp path only", cirq.Points("a", [0.25, 0.5], metadata=DeviceParameter(path=["p"])), comb=False)
+    add("Pa dp no path", cirq.Points("a", [0.25, 0.5], metadata=DeviceParameter(path=[], idx=1)), comb=False)
+    add("Pa md", cirq.Points("a", [0.25, 0.5], metadata=Metadata(
+        device_parameters=[DeviceParameter(path=["p"], idx=1)], label="l", is_const=True, unit="ns")))
+    add("Pa md empty", cirq.Points("a", [0.25, 0.5], metadata=Metadata()), comb=False)
+    add("Pa md const", cirq.Points("a", [0.1], metadata=Metadata(label="", is_const=False, unit="GHz")), comb=False)
+    add("La5", cirq.Linspace("a", 0, 1, 5))
+    add("Ld3", cirq.Linspace("d", 0.1, 0.7, 3))
+    add("Ld4", cirq.Linspace("d", -0.1, 0.2, 4))
+    add("Ld1", cirq.Linspace("d", 0.5, 0.5, 1), comb=False)
+    add("Ld desc", cirq.Linspace("d", 0.5, 0.0, 3), comb=False)
+    add("Ld from0", cirq.Linspace("d", 0.0, g, 3), comb=False)
+    add("Lu", cirq.Linspace("u", 1 * ns, 0.005 * us, 3))
+    add("Lu GHz", cirq.Linspace("u", 0.1 * GHz, 0.7 * GHz, 4), comb=False)
+    add("La dp", cirq.Linspace("a", 0, 1, 3, metadata=DeviceParameter(path=["p"], idx=1)), comb=False)
+    add("La md", cirq.Linspace("a", 0, 1, 3, metadata=Metadata(label="l", unit="ns")), comb=False)
+    # suspected defects (see final report): kept as separate letters, not used in combinations
+    add("FRV sorted", FiniteRandomVariable("r", {0.25: 0.5, 0.5: 0.25, 0.75: 0.25}, seed=3, length=6),
+        find="finite_random_variable_order")
+    add("FRV unsorted", FiniteRandomVariable("r", {0.75: 0.25, 0.25: 0.5, 0.5: 0.25}, seed=3, length=6),
+        find="finite_random_variable_order")
+    add("Pa dp idx0", cirq.Points("a", [0.25, 0.5], metadata=DeviceParameter(path=["p", "q"], idx=0, units="GHz")),
+        find="device_parameter_idx0")
+    add("La dp idx0", cirq.Linspace("a", 0, 1, 3, metadata=DeviceParameter(path=["p"], idx=0)),
+        find="device_parameter_idx0")
+    add("Pa md dp units", cirq.Points("a", [0.25, 0.5], metadata=Metadata(
+        device_parameters=[DeviceParameter(path=["p"], idx=1, units="GHz")], label="l")),
+        find="metadata_device_parameter_units")
+    return L
+
+
+_SWEEPS = {}
+
+
+def sweep_terms(seed):
+    """All sweep terms: descriptor -> sweep.  Descriptors: ('leaf', i) | ('c2', comb, i, j) |
+    ('c3', comb1, comb2, i, j, k, side) | ('list', n)."""
+    if seed in _SWEEPS:
+        return _SWEEPS[seed]
+    leaves = _sweep_leaves(seed)
+    combs = [("Zip", cirq.Zip), ("ZipLongest", cirq.ZipLongest), ("Product", cirq.Product), ("Concat", cirq.Concat)]
+    lists = [
+        cirq.ListSweep([cirq.ParamResolver({"a": 1, "b": 2}), cirq.ParamResolver({"a": 3, "b": 4})]),
+        cirq.ListSweep([cirq.ParamResolver({"a": 0.1, "b": 2})]),
+        cirq.ListSweep([cirq.ParamResolver({"a": 1, "b": 2}), cirq.ParamResolver({"b": 4, "a": 0.1}),
+                        cirq.ParamResolver({"a": -1, "b": 2.5})]),
+        cirq.ListSweep([cirq.ParamResolver({sympy.Symbol("a"): 1}), cirq.ParamResolver({sympy.Symbol("a"): 0.1})]),
+        cirq.ListSweep(cirq.Zip(cirq.Points("a", [0.1, 0.2]), cirq.Linspace("b", 0, 1, 2))),
+        cirq.dict_to_product_sweep({"a": [1, 0.1], "b": [3]}),
+        cirq.dict_to_zip_sweep({"a": [1, 0.1], "b": [3, 4]}),
+        cirq.Points("a", [1, 2]) * cirq.Points("b", [0.1, 2]) + cirq.Points("c", [1, 2, 3, 4]),
+        cirq.Product(), cirq.Zip(),
+    ]
+    T = dict(leaves=leaves, combs=combs, lists=lists)
+    cidx = [i for i, l in enumerate(leaves) if l["comb"]]
+    descs = [("leaf", i) for i in range(len(leaves))]
+    descs += [("list", n) for n in range(len(lists))]
+
+    def keys(i):
+        return tuple(leaves[i]["sweep"].keys)
+
+    for c, (cn, _) in enumerate(combs):
+        for i in cidx:
+            for j in cidx:
+                if cn == "Concat":
+                    ok = keys(i) == keys(j)
+                else:
+                    ok = not (set(keys(i)) & set(keys(j)))
+                if ok:
+                    descs.append(("c2", c, i, j))
+    c3 = [i for i in cidx if leaves[i]["name"] in ("Pa3", "Pb2i", "Pc float", "Ld3", "Pu3", "Pa md", "unit")]
+    for c1, (n1, _) in enumerate(combs):
+        for c2, (n2, _) in enumerate(combs):
+            for i in c3:
+                for j in c3:
+                    if n2 == "Concat":
+                        if keys(i) != keys(j):
+                            continue
+                    elif set(keys(i)) & set(keys(j)) or i == j:
+                        continue
+                    inner_keys = keys(i) if n2 == "Concat" else keys(i) + keys(j)
+                    for k in c3:
+                        if n1 == "Concat":
+                            if keys(k) != inner_keys:
+                                continue
+                        elif set(keys(k)) & set(inner_keys):
+                            continue
+                        for side in (0, 1):
+                            descs.append(("c3", c1, c2, i, j, k, side))
+    T["descs"] = descs
+    _SWEEPS[seed] = T
+    return T
+
+
+def build_sweep(T, d):
+    if d[0] == "leaf":
+        return T["leaves"][d[1]]["sweep"]
+    if d[0] == "list":
+        return T["lists"][d[1]]
+    lv = lambda i: T["leaves"][i]["sweep"]
+    if d[0] == "c2":
+        return T["combs"][d[1]][1](lv(d[2]), lv(d[3]))
+    _, c1, c2, i, j, k, side = d
+    inner = T["combs"][c2][1](lv(i), lv(j))
+    return T["combs"][c1][1](inner, lv(k)) if side == 0 else T["combs"][c1][1](lv(k), inner)
+
+
+def describe_sweep(T, d):
+    try:
+        return [list(d), repr(build_sweep(T, d))[:300]]
+    except Exception:
+        return list(d)
+
+
+def _plain(v):
+    """Numeric payload of a sweep value (tunits values in their own unit)."""
+    if isinstance(v, tu.Value):
+        return float(v[v.unit]) if v.unit is not None else float(v)
+    return v
+
+
+def resolvers_diff(exp, got, rel):
+    """exp/got: lists of ParamResolver. Per key the tolerance is relative to the largest magnitude of that key."""
+    if len(exp) != len(got):
+        return f"{len(exp)} parameter sets became {len(got)}"
+    scale = {}
+    for r in exp:
+        for k, v in r.param_dict.items():
+            pv = _plain(v)
+            if _is_num(pv):
+                scale[str(k)] = max(scale.get(str(k), 0.0), abs(pv))
+    for n, (r1, r2) in enumerate(zip(exp, got)):
+        d1 = {str(k): v for k, v in r1.param_dict.items()}
+        d2 = {str(k): v for k, v in r2.param_dict.items()}
+        if set(d1) != set(d2):
+            return f"parameter set {n}: keys {sorted(d1)} became {sorted(d2)}"
+        for k, x in d1.items():
+            y = d2[k]
+            if isinstance(x, tu.Value) or isinstance(y, tu.Value):
+                if not (isinstance(x, tu.Value) and isinstance(y, tu.Value)):
+                    return f"parameter set {n}: {k}={x!r} became {y!r}"
+                try:
+                    fx, fy = float(x[x.unit]), float(y[x.unit])
+                except Exception:
+                    return f"parameter set {n}: {k}={x!r} became {y!r} (unit changed)"
+                if abs(fx - fy) > rel * max(abs(fx), abs(fy)) + rel * scale.get(k, 0.0):
+                    return f"parameter set {n}: {k}={x!r} became {y!r}"
+            elif isinstance(x, (bool, np.bool_)) or _is_num(x):
+                if not (isinstance(y, (bool, np.bool_)) or _is_num(y)):
+                    return f"parameter set {n}: {k}={x!r} became {y!r}"
+                if abs(complex(x) - complex(y)) > rel * max(abs(x), abs(y)) + rel * scale.get(k, 0.0):
+                    return f"parameter set {n}: {k}={x!r} became {y!r}"
+            else:
+                if type(x) is not type(y) or x != y:
+                    return f"parameter set {n}: {k}={x!r} became {y!r}"
+    return None
+
+
+def _single_sweeps(sw, out):
+    if isinstance(sw, cirq.Product):
+        for f in sw.factors:
+            _single_sweeps(f, out)
+    elif isinstance(sw, (cirq.Zip, cirq.Concat)):
+        for f in sw.sweeps:
+            _single_sweeps(f, out)
+    elif sw is not cirq.UnitSweep and hasattr(sw, "key"):
+        out.append(sw)
+    return out
+
+
+def sweep_roundtrip_diff(sw, f64):
+    msg = v2.sweep_to_proto(sw, use_float64=f64)
+    back = v2.sweep_from_proto(_hop(msg))
+    rel = 1e-12 if f64 else REL
+    d = resolvers_diff(list(sw), list(back), rel)
+    if d:
+        return f"sweep_from_proto(sweep_to_proto(s, use_float64={f64})) differs: {d}\n s = {sw!r}\n back = {back!r}"
+    if len(sw) != len(back):
+        return f"len {len(sw)} became {len(back)} for {sw!r}"
+    if not isinstance(sw, cirq.ListSweep):
+        l1, l2 = _single_sweeps(sw, []), _single_sweeps(back, [])
+        if [str(x.key) for x in l1] != [str(x.key) for x in l2]:
+            return f"single sweeps {[str(x.key) for x in l1]} became {[str(x.key) for x in l2]} for {sw!r}"
+        for x, y in zip(l1, l2):
+            mx, my = getattr(x, "metadata", None), getattr(y, "metadata", None)
+            if isinstance(mx, (DeviceParameter, Metadata)) and mx != my:
+                return f"metadata of sweep {x.key!r}: {mx!r} became {my!r}"
+            if mx is None and my is not None:
+                return f"metadata of sweep {x.key!r}: None became {my!r}"
+    return None
+
+
+def _frv_order_diff(sw):
+    """The distribution travels in a proto3 map, whose entry order is unspecified (and differs between processes
+    with the upb runtime): the round trip can only be faithful if the sampled values do not depend on the order of
+    the distribution's entries.  Checked for every order, which makes the verdict process independent."""
+    want = list(sw)
+    for perm in itertools.permutations(list(sw.distribution.items())):
+        other = FiniteRandomVariable(sw.key, dict(perm), seed=sw.seed, length=sw.length, metadata=sw.metadata)
+        if other != sw:
+            return f"{other!r} != {sw!r}"
+        got = list(other)
+        if got != want:
+            return (f"the wire format carries the distribution as an unordered map, but the values depend on the entry "
+                    f"order: {sw!r} yields {[r.value_of(sw.key) for r in want]}, the equal sweep {other!r} (a legal "
+                    f"result of sweep_from_proto) yields {[r.value_of(sw.key) for r in got]}")
+    return None
+
+
+def make_sweep_stage(seed):
+    T = sweep_terms(seed)
+    is_find = lambda d: d[0] == "leaf" and T["leaves"][d[1]]["find"] is not None
+    # (letters that currently expose suspected defects are ordered last so that they cannot hide anything new)
+    cases = [(d, f) for d in T["descs"] if not is_find(d) for f in (0, 1)]
+    cases += [(d, f) for d in T["descs"] if is_find(d) for f in (0, 1)]
+
+    def run(case):
+        d, f = case
+        find = T["leaves"][d[1]]["find"] if d[0] == "leaf" else None
+        sw = build_sweep(T, d)
+        if find:
+            try:
+                r = sweep_roundtrip_diff(sw, bool(f))
+                if r is None and isinstance(sw, FiniteRandomVariable):
+                    r = _frv_order_diff(sw)
+            except Exception as ex:
+                return bad(f"{type(ex).__name__}: {ex} for {sw!r}", kind=find)
+            return bad(r, kind=find) if r else good(nontrivial=True)
+        r = sweep_roundtrip_diff(sw, bool(f))
+        if r:
+            return bad(r, kind="sweep")
+        return good(nontrivial=len(sw) >= 2, points=len(sw))
+
+    return CaseStage("sweeps", cases, run, describe=lambda c: [describe_sweep(T, c[0]), c[1]])
+
+
+def make_sweep_v1_stage(seed):
+    """Legacy v1 params API: product-of-zips of plain numeric single sweeps (float32)."""
+    from cirq_google.api.v1 import params as v1_params
+
+    T = sweep_terms(seed)
+    names = ["Pa3", "Pb2i", "Pb3g", "Pc float", "Pc int", "La5", "Ld3", "Ld4", "Ld1", "Ld desc"]
+    lf = {l["name"]: l["sweep"] for l in T["leaves"]}
+    leaves = [lf[n] for n in names]
+    n = len(leaves)
+    terms = [("unit",)] + [("leaf", i) for i in range(n)]
+    distinct = lambda *ix: len({k for i in ix for k in leaves[i].keys}) == sum(len(leaves[i].keys) for i in ix)
+    terms += [(c, i, j) for c in ("zip", "product", "concat") for i in range(n) for j in range(n) if distinct(i, j)]
+    terms += [(c, i, j, k) for c in ("product(zip,leaf)", "product(leaf,zip)", "zip(product,leaf)")
+              for i in range(0, n, 2) for j in range(1, n, 2) for k in range(n) if distinct(i, j, k)]
+
+    def build(t):
+        if t[0] == "unit":
+            return cirq.UnitSweep, False
+        if t[0] == "leaf":
+            return leaves[t[1]], False
+        if t[0] == "zip":
+            return cirq.Zip(leaves[t[1]], leaves[t[2]]), False
+        if t[0] == "product":
+            return cirq.Product(leaves[t[1]], leaves[t[2]]), False
+        if t[0] == "concat":   # not a zip-product form: documented ValueError
+            return cirq.Concat(leaves[t[1]], leaves[t[1]]), True
+        if t[0] == "product(zip,leaf)":
+            return cirq.Product(cirq.Zip(leaves[t[1]], leaves[t[2]]), leaves[t[3]]), False
+        if t[0] == "product(leaf,zip)":
+            return cirq.Product(leaves[t[3]], cirq.Zip(leaves[t[1]], leaves[t[2]])), False
+        return cirq.Zip(cirq.Product(leaves[t[1]], leaves[t[2]]), leaves[t[3]]), True
+
+    def run(t):
+        sw, rejects = build(t)
+        for reps in (1, 1000):
+            try:
+                msg = v1_params.sweep_to_proto(sw, reps)
+            except ValueError:
+                if rejects:
+                    return Res(skipped=True, nontrivial=False)
+                raise
+            if rejects:
+                return bad(f"v1 sweep_to_proto accepted {sw!r}, which is not a product of zips", kind="sweep_v1")
+            msg = _hop(msg)
+            if msg.repetitions != reps:
+                return bad(f"v1 repetitions {reps} became {msg.repetitions}", kind="sweep_v1")
+            back = v1_params.sweep_from_proto(msg)
+            d = resolvers_diff(list(sw), list(back), REL)
+            if d:
+                return bad(f"v1 sweep round trip differs: {d}\n s = {sw!r}\n back = {back!r}", kind="sweep_v1")
+        return good(nontrivial=len(sw) >= 2, points=len(sw))
+
+    return CaseStage("sweeps_v1", terms, run, describe=lambda t: [list(t), repr(build(t)[0])[:300]])
+
+
+def _sweepables(seed):
+    T = sweep_terms(seed)
+    lf = {l["name"]: l["sweep"] for l in T["leaves"]}
+    return [
+        ("None", None, False),
+        ("resolver{}", cirq.ParamResolver({}), False),
+        ("resolver", cirq.ParamResolver({"a": 0.1, "b": 1}), False),
+        # (ParamResolver with sympy.Symbol keys and a raw empty dict are left out: the unexported, unused helper
+        #  sweepable_to_proto raises TypeError / yields zero parameter sets for them; see the builder report)
+        ("dict", {"a": 0.25}, False),
+        ("dict3", {"a": 0.1, "b": 2, "u": 5 * tu.ns}, False),
+        ("dict list value", {"a": [1, 2]}, True),       # documented ValueError of _add_sweep_const
+        ("unit", cirq.UnitSweep, False),
+        ("Pa3", lf["Pa3"], False),
+        ("Ld4", lf["Ld4"], False),
+        ("Pu3", lf["Pu3"], False),
+        ("product", cirq.Product(lf["Pa3"], lf["Pb2i"]), False),
+        ("zip", cirq.Zip(lf["Pa3"], lf["Ld3"]), False),
+        ("[Pa3,Ld3]", [lf["Pa3"], lf["Ld3"]], False),
+        ("[dict,dict]", [{"a": 0.1}, {"a": 0.2, "b": 1}], False),
+        ("[resolver,sweep,dict]", [cirq.ParamResolver({"a": 0.1}), lf["Pb2i"], {"c": 3}], False),
+        ("[]", [], False),
+        ("(Pa3,)", (lf["Pa3"],), False),
+        ("[[Pa3],[Ld3,Pb2i]]", [[lf["Pa3"]], [lf["Ld3"], lf["Pb2i"]]], False),
+    ]
+
+
+def make_run_context_stage(seed):
+    SW = _sweepables(seed)
+    REPS = [1000, (10,), (10, 20), (10, 20, 30), 0]
+    cases = [("sweepable", i, f, 0, 0) for i in range(len(SW)) for f in (0, 1)]
+    cases += [("run_context", i, f, c, r) for i in range(len(SW)) for f in (0, 1) for c in (0, 1)
+              for r in range(len(REPS))]
+
+    def decode(ps, f64, expected, label):
+        got = list(v2.sweep_from_proto(ps.sweep))
+        d = resolvers_diff(expected, got, 1e-12 if f64 else REL)
+        if d:
+            return f"{label}: {d}\n expected {expected!r}\n got {got!r}"
+        return None
+
+    def run(case):
+        kind, i, f, comp, ri = case
+        name, sweepable, rejects = SW[i]
+        f64 = bool(f)
+        if kind == "sweepable":
+            out = v2.run_context_pb2.RunContext()
+            try:
+                v2_sweeps.sweepable_to_proto(sweepable, 1000, out=out, use_float64=f64)
+            except ValueError:
+                if rejects:
+                    return Res(skipped=True, nontrivial=False)
+                raise
+            out = _hop(out)
+            got = []
+            for ps in out.parameter_sweeps:
+                if ps.repetitions != 1000:
+                    return bad(f"sweepable {name}: repetitions 1000 became {ps.repetitions}", kind="run_context")
+                got.extend(v2.sweep_from_proto(ps.sweep))
+            expected = list(cirq.to_resolvers(sweepable))
+            d = resolvers_diff(expected, got, 1e-12 if f64 else REL)
+            if d:
+                return bad(f"sweepable_to_proto({name}, use_float64={f64}): {d}\n expected {expected!r}\n got {got!r}",
+                           kind="run_context")
+            return good(nontrivial=len(expected) >= 2, points=len(expected))
+        reps = REPS[ri]
+        try:
+            sweeps_list = cirq.to_sweeps(sweepable)
+        except Exception:
+            return Res(skipped=True, nontrivial=False)
+        if isinstance(reps, tuple):
+            sl = sweeps_list * len(reps) if (len(sweeps_list) == 1 and len(reps) > 1) else sweeps_list
+            must_reject = len(sl) != len(reps)
+            reps_list = list(reps)
+        else:
+            sl = sweeps_list
+            must_reject = False
+            reps_list = [reps] * len(sl)
+        try:
+            out = v2.run_context_to_proto(sweepable, list(reps) if isinstance(reps, tuple) else reps,
+                                          compress_proto=bool(comp), use_float64=f64)
+        except ValueError:
+            if must_reject:
+                return Res(skipped=True, nontrivial=False)
+            raise
+        if must_reject:
+            return bad(f"run_context_to_proto({name}, repetitions={reps}) accepted {len(sl)} sweeps for "
+                       f"{len(reps)} repetition counts", kind="run_context")
+        out = _hop(out)
+        if comp:
+            if len(out.parameter_sweeps):
+                return bad("compressed run context also carries uncompressed sweeps", kind="run_context")
+            inner = v2.run_context_pb2.RunContext()
+            inner.ParseFromString(gzip.decompress(out.compressed_run_context))
+            out = inner
+        elif out.compressed_run_context:
+            return bad("uncompressed run context carries compressed bytes", kind="run_context")
+        if len(out.parameter_sweeps) != len(sl):
+            return bad(f"run_context_to_proto({name}, {reps}): {len(sl)} sweeps became {len(out.parameter_sweeps)}",
+                       kind="run_context")
+        npts = 0
+        for n, (ps, sw, r) in enumerate(zip(out.parameter_sweeps, sl, reps_list)):
+            if ps.repetitions != r:
+                return bad(f"run_context_to_proto({name}, {reps}): sweep {n} repetitions {r} became {ps.repetitions}",
+                           kind="run_context")
+            d = decode(ps, f64, list(sw), f"run_context_to_proto({name}, {reps}, compress={comp}, f64={f64}) sweep {n}")
+            if d:
+                return bad(d, kind="run_context")
+            npts += len(sw)
+        return good(nontrivial=npts >= 2, points=npts)
+
+    return CaseStage("run_contexts", cases, run, describe=lambda c: [list(c), SW[c[1]][0]])
+
+
+# =============================================================================================
+# (c) results
+# =============================================================================================
+
+def ref_pack(bits):
+    """Independent reference of the wire format: bit i of the stream is bit (i % 8) (LSB first) of byte i // 8."""
+    v = 0
+    for i, b in enumerate(bits):
+        if b:
+            v |= 1 << i
+    return v.to_bytes((len(bits) + 7) // 8, "little")
+
+
+def make_pack_stage(tier):
+    nmax = 18 if tier == "thorough" else 16
+    chunk = 4096
+    cases = []
+    for n in range(nmax + 1):
+        tot = 1 << n
+        for lo in range(0, tot, chunk):
+            cases.append(("all", n, lo, min(tot, lo + chunk)))
+    for n in (63, 64, 65, 66):
+        cases.append(("patterns", n, 0, 0))
+
+    def one(bits, ref):
+        got = v2.pack_bits(bits)
+        if got != ref:
+            return bad(f"pack_bits({bits.astype(int).tolist()}) = {got!r}, wire format says {ref!r}", kind="pack_bits")
+        un = v2.unpack_bits(ref, len(bits))
+        if un.shape != bits.shape or not np.array_equal(un, bits):
+            return bad(f"unpack_bits({ref!r}, {len(bits)}) = {un.astype(int).tolist()}, expected "
+                       f"{bits.astype(int).tolist()}", kind="unpack_bits")
+        return None
+
+    def run(case):
+        kind, n, lo, hi = case
+        cnt = 0
+        if kind == "all":
+            idx = np.arange(n)
+            nb = (n + 7) // 8
+            for v in range(lo, hi):
+                bits = ((v >> idx) & 1).astype(bool) if n else np.zeros(0, dtype=bool)
+                r = one(bits, v.to_bytes(nb, "little"))
+                if r:
+                    return r
+                cnt += 1
+        else:
+            pats = [np.zeros(n, dtype=bool), np.ones(n, dtype=bool), np.arange(n) % 2 == 0, np.arange(n) % 2 == 1]
+            for i in range(n):
+                b = np.zeros(n, dtype=bool)
+                b[i] = True
+                pats.append(b)
+            for bits in pats:
+                r = one(bits, ref_pack(bits))
+                if r:
+                    return r
+                cnt += 1
+        return good(nontrivial=n > 0, bit_arrays=cnt)
+
+    return CaseStage("pack_bits", cases, run)
+
+
+_RA, _RB, _RC = G(0, 0), G(0, 1), G(1, 0)
+RESULT_LAYOUTS = [
+    [("k", (_RB,), 1)],
+    [("k", (_RB, _RA), 1)],
+    [("k", (_RB, _RA), 1), ("m", (_RC,), 1)],
+    [("k", (_RC, _RA, _RB), 1)],
+    [("k", (_RB, _RA), 2), ("m", (_RC,), 1)],
+    [("z", (_RC,), 1), ("a", (_RB, _RA), 1)],
+    [("k", (_RA,), 3)],
+]
+RESULT_REPS = [0, 1, 7, 8, 9]
+
+
+def _tensor_patterns(T):
+    if T <= 12:
+        for v in range(1 << T):
+            yield ((v >> np.arange(T)) & 1).astype(bool) if T else np.zeros(0, dtype=bool)
+        return
+    yield np.zeros(T, dtype=bool)
+    yield np.ones(T, dtype=bool)
+    yield np.arange(T) % 2 == 0
+    yield np.arange(T) % 2 == 1
+    yield np.arange(T) % 3 == 0
+    for i in range(T):
+        b = np.zeros(T, dtype=bool)
+        b[i] = True
+        yield b
+        yield ~b
+
+
+def _records(layout, reps, flat):
+    recs = {}
+    pos = 0
+    for key, qs, inst in layout:
+        n = reps * inst * len(qs)
+        recs[key] = flat[pos:pos + n].reshape((reps, inst, len(qs))).copy()
+        pos += n
+    return recs
+
+
+def make_results_stage():
+    cases = [(li, reps, st) for li in range(len(RESULT_LAYOUTS)) for reps in RESULT_REPS for st in range(4)]
+    cases += [(-1, 0, 0), (-1, 0, 1)]
+
+    def infos(layout):
+        return [v2.MeasureInfo(key=k, qubits=list(qs), instances=inst, invert_mask=[False] * len(qs), tags=[])
+                for k, qs, inst in layout]
+
+    def compare(sweeps, back, layout, msg, label):
+        if len(back) != len(sweeps):
+            return f"{label}: {len(sweeps)} sweeps became {len(back)}"
+        for si, (sw, bs) in enumerate(zip(sweeps, back)):
+            if len(sw) != len(bs):
+                return f"{label}: sweep {si}: {len(sw)} results became {len(bs)}"
+            for ri, (r, b) in enumerate(zip(sw, bs)):
+                p1, p2 = dict(r.params.param_dict), dict(b.params.param_dict)
+                if not val_close(p1, p2):
+                    return f"{label}: sweep {si} result {ri}: params {p1} became {p2}"
+                if set(r.records) != set(b.records):
+                    return f"{label}: sweep {si} result {ri}: keys {sorted(r.records)} became {sorted(b.records)}"
+                for k in r.records:
+                    x, y = r.records[k], b.records[k]
+                    if x.shape != y.shape or not np.array_equal(x, y):
+                        return (f"{label}: sweep {si} result {ri}: records[{k!r}] {x.astype(int).tolist()} (shape {x.shape}) "
+                                f"became {np.asarray(y).astype(int).tolist()} (shape {np.asarray(y).shape})")
+        # wire format of every qubit stream against the independent packer
+        for si, sw in enumerate(sweeps):
+            srm = msg.sweep_results[si]
+            if len(sw) and srm.repetitions != sw[0].repetitions:
+                return f"{label}: sweep {si}: repetitions {sw[0].repetitions} became {srm.repetitions}"
+            for ri, r in enumerate(sw):
+                pr = srm.parameterized_results[ri]
+                for mi, (k, qs, inst) in enumerate(layout):
+                    mr = pr.measurement_results[mi]
+                    if mr.key != k or mr.instances != inst:
+                        return f"{label}: measurement {mi}: ({k},{inst}) became ({mr.key},{mr.instances})"
+                    for qi, q in enumerate(qs):
+                        qmr = mr.qubit_measurement_results[qi]
+                        if qmr.qubit.id != f"{q.row}_{q.col}":
+                            return f"{label}: measurement {k}: qubit {qi} is {qmr.qubit.id}, expected {q}"
+                        ref = ref_pack(r.records[k][:, :, qi].reshape(-1))
+                        if qmr.results != ref:
+                            return f"{label}: measurement {k} qubit {q}: wire bytes {qmr.results!r}, expected {ref!r}"
+        return None
+
+    def run(case):
+        li, reps, st = case
+        if li < 0:
+            sweeps = [] if st == 0 else [[]]
+            msg = _hop(v2.results_to_proto(sweeps, infos(RESULT_LAYOUTS[2])))
+            back = v2.results_from_proto(msg, infos(RESULT_LAYOUTS[2]))
+            if [list(x) for x in back] != sweeps:
+                return bad(f"empty result structure {sweeps} became {back}", kind="results")
+            return good(nontrivial=False)
+        layout = RESULT_LAYOUTS[li]
+        ms = infos(layout)
+        T = reps * sum(inst * len(qs) for _, qs, inst in layout)
+        reps2 = reps + 1
+        T2 = reps2 * sum(inst * len(qs) for _, qs, inst in layout)
+        n = 0
+        for flat in _tensor_patterns(T):
+            r1 = cirq.ResultDict(params=cirq.ParamResolver({"x": 0.1, "y": 1}), records=_records(layout, reps, flat))
+            r2 = cirq.ResultDict(params=cirq.ParamResolver({"x": 2.5, "y": -0.3}), records=_records(layout, reps, ~flat))
+            r3 = cirq.ResultDict(params=cirq.ParamResolver({}),
+                                 records=_records(layout, reps2, np.resize(np.append(flat, True), T2)))
+            sweeps = [[[r1]], [[r1, r2]], [[r1], [r3]], [[r2, r1], [r3], [r1]]][st]
+            msg = _hop(v2.results_to_proto(sweeps, ms))
+            back = v2.results_from_proto(msg, ms)
+            d = compare(sweeps, back, layout, msg, f"layout {li} reps {reps} structure {st}")
+            if d:
+                return bad(d, kind="results")
+            back = v2.results_from_proto(msg)       # without measurement infos: wire order
+            d = compare(sweeps, back, layout, msg, f"layout {li} reps {reps} structure {st} (no MeasureInfo)")
+            if d:
+                return bad(d, kind="results")
+            n += 1
+        return good(nontrivial=T > 0, tensors=n)
+
+    return CaseStage("results", cases, run)
+
+
+def _meas_letters():
+    a, b, c = _RA, _RB, _RC
+    cal = cg.CalibrationTag("x")
+    return [
+        ("M(b,a;k)", cirq.measure(b, a, key="k")),
+        ("M(b,a;k,inv=(1,))", cirq.measure(b, a, key="k", invert_mask=(True,))),
+        ("M(b,a;k,inv=(1,0))", cirq.measure(b, a, key="k", invert_mask=(True, False))),
+        ("M(a,b;k)", cirq.measure(a, b, key="k")),
+        ("M(c;m)", cirq.measure(c, key="m")),
+        ("M(c;m)+tag", cirq.measure(c, key="m").with_tags(cal)),
+        ("M(c;k)", cirq.measure(c, key="k")),
+        ("X(a)", cirq.X(a)),
+        ("M(line;l)", cirq.measure(cirq.LineQubit(1), key="l")),
+        ("M(a;z)", cirq.measure(a, key="z")),
+    ]
+
+
+def make_find_measurements_stage():
+    Ls = _meas_letters()
+    n = len(Ls)
+    cases = [()] + [s for k in (1, 2, 3) for s in itertools.product(range(n), repeat=k)]
+
+    def expected(ops):
+        out = {}
+        for op in ops:
+            if not isinstance(op.gate, cirq.MeasurementGate):
+                continue
+            if not all(isinstance(q, cirq.GridQubit) for q in op.qubits):
+                return None
+            full = list(op.gate.invert_mask) + [False] * (len(op.qubits) - len(op.gate.invert_mask))
+            cur = (list(op.qubits), full, list(op.tags))
+            key = op.gate.key
+            if key in out:
+                if out[key][0] != cur:
+                    return None
+                out[key][1] += 1
+            else:
+                out[key] = [cur, 1]
+        return [(k, v[0][0], v[1], v[0][1], v[0][2]) for k, v in out.items()]
+
+    def run(seq):
+        ops = [Ls[i][1] for i in seq]
+        circ = cirq.Circuit([cirq.Moment(op) for op in ops])
+        exp = expected(ops)
+        try:
+            got = v2.find_measurements(circ)
+        except ValueError:
+            if exp is None:
+                return Res(skipped=True, nontrivial=False)
+            raise
+        if exp is None:
+            return bad(f"find_measurements accepted incompatible / non-grid measurements: {circ!r} -> {got!r}",
+                       kind="find_measurements")
+        g = [(m.key, list(m.qubits), m.instances, list(m.invert_mask), list(m.tags)) for m in got]
+        if g != exp:
+            return bad(f"find_measurements({[Ls[i][0] for i in seq]}) = {g!r}, expected {exp!r}", kind="find_measurements")
+        return good(nontrivial=len(exp) >= 1)
+
+    return CaseStage("find_measurements", cases, run, describe=lambda s: [Ls[i][0] for i in s])
+
+
+# =============================================================================================
+# (d) devices
+# =============================================================================================
+
+DEV_KINDS = ["syc", "sqrt_iswap", "sqrt_iswap_inv", "cz", "cz_pow_gate", "phased_xz", "virtual_zpow", "physical_zpow",
+             "coupler_pulse", "meas", "wait", "fsim_via_model", "two_pulse_fsim", "internal_gate", "reset",
+             "analog_detune_qubit", "analog_detune_coupler_only", "wait_gate_with_unit"]
+DEV_SUBSET_QUICK = ["syc", "sqrt_iswap", "cz", "cz_pow_gate", "phased_xz", "virtual_zpow", "meas"]
+DEV_SUBSET_THOROUGH = DEV_SUBSET_QUICK + ["physical_zpow", "wait"]
+# a 2x2 grid placed so that the frozenset pairs of cirq's GridDeviceMetadata iterate in descending qubit order for
+# two of its four edges and in ascending order for the other two (GridQubit hashes are process independent)
+DEV_QUBITS = [G(1, 2), G(1, 3), G(2, 2), G(2, 3)]
+DEV_EDGES = [(0, 1), (0, 2), (1, 3), (2, 3)]
+
+
+def _qid(q):
+    return f"{q.row}_{q.col}"
+
+
+def dev_topologies():
+    out = []
+    for mask in range(16):
+        qs = [i for i in range(4) if mask >> i & 1]
+        edges = [e for e in DEV_EDGES if e[0] in qs and e[1] in qs]
+        for emask in range(1 << len(edges)):
+            out.append((tuple(qs), tuple(e for n, e in enumerate(edges) if emask >> n & 1)))
+    return out
+
+
+def dev_gate_sets(tier):
+    sub = DEV_SUBSET_THOROUGH if tier == "thorough" else DEV_SUBSET_QUICK
+    sets = []
+    for m in range(1 << len(sub)):
+        sets.append(tuple(k for n, k in enumerate(sub) if m >> n & 1))
+    for k in DEV_KINDS:
+        if (k,) not in sets:
+            sets.append((k,))
+    sets.append(tuple(DEV_KINDS))
+    sets.append(tuple(reversed(DEV_KINDS)))
+    return sets
+
+
+def build_spec(qs, edges, kinds, orient, dur, ordering=None):
+    p = v2.device_pb2.DeviceSpecification()
+    p.valid_qubits.extend(_qid(DEV_QUBITS[i]) for i in qs)
+    ts = p.valid_targets.add()
+    ts.name = "2_qubit_targets"
+    ts.target_ordering = v2.device_pb2.TargetSet.SYMMETRIC if ordering is None else ordering
+    for (x, y) in edges:
+        ids = [_qid(DEV_QUBITS[x]), _qid(DEV_QUBITS[y])]
+        if orient == 1:
+            ids.reverse()
+        ts.targets.add().ids.extend(ids)
+        if orient == 2:
+            ts.targets.add().ids.extend(reversed(ids))
+    for n, k in enumerate(kinds):
+        gs = p.valid_gates.add()
+        getattr(gs, k).SetInParent()
+        if dur == 1:
+            gs.gate_duration_picos = 1000 * (n + 1)
+        elif dur == 2:
+            gs.gate_duration_picos = 0 if n % 2 == 0 else 12500
+    return p
+
+
+def spec_semantics(p):
+    qs = list(p.valid_qubits)
+    pairs = set()
+    for ts in p.valid_targets:
+        for t in ts.targets:
+            if len(t.ids) == 2 and ts.target_ordering == v2.device_pb2.TargetSet.SYMMETRIC:
+                pairs.add(frozenset(t.ids))
+    gates = {}
+    for gs in p.valid_gates:
+        gates[gs.WhichOneof("gate")] = gs.gate_duration_picos
+    return sorted(qs), pairs, gates
+
+
+def _dev_ops():
+    q00, q01, q10, q11 = DEV_QUBITS
+    pz, fvm = cg.PhysicalZTag(), cg.FSimViaModelTag()
+    ops = [
+        # (name, op, kinds that accept it, needs an allowed pair)
+        ("X", cirq.X(q00), {"phased_xz"}),
+        ("X^.3@11", cirq.X(q11) ** 0.3, {"phased_xz"}),
+        ("H", cirq.H(q01), {"phased_xz"}),
+        ("I", cirq.I(q10), {"phased_xz"}),
+        ("PhXZ", cirq.PhasedXZGate(x_exponent=0.3, z_exponent=0.2, axis_phase_exponent=0.1).on(q00), {"phased_xz"}),
+        ("PhX", cirq.PhasedXPowGate(phase_exponent=0.3, exponent=0.2).on(q01), {"phased_xz"}),
+        ("Z^.3", cirq.Z(q00) ** 0.3, {"virtual_zpow"}),
+        ("Z+PhysZ", cirq.Z(q01).with_tags(pz), {"physical_zpow"}),
+        ("CZ(00,01)", cirq.CZ(q00, q01), {"cz", "cz_pow_gate"}),
+        ("CZ(01,00)", cirq.CZ(q01, q00), {"cz", "cz_pow_gate"}),
+        ("CZ(00,10)", cirq.CZ(q00, q10), {"cz", "cz_pow_gate"}),
+        ("CZ(10,11)", cirq.CZ(q10, q11), {"cz", "cz_pow_gate"}),
+        ("CZ(00,11)", cirq.CZ(q00, q11), {"cz", "cz_pow_gate"}),
+        ("CZ^.5(00,01)", cirq.CZ(q00, q01) ** 0.5, {"cz_pow_gate"}),
+        ("SYC(00,01)", cg.SYC(q00, q01), {"syc"}),
+        ("SYC(11,01)", cg.SYC(q11, q01), {"syc"}),
+        ("sqrtISWAP(00,10)", cirq.SQRT_ISWAP(q00, q10), {"sqrt_iswap"}),
+        ("sqrtISWAPinv(00,01)", cirq.SQRT_ISWAP_INV(q00, q01), {"sqrt_iswap_inv"}),
+        ("FSim+ViaModel", cirq.FSimGate(0.3, 0.2).on(q00, q01).with_tags(fvm), {"fsim_via_model"}),
+        ("FSim+TwoPulse", cirq.FSimGate(0.3, 0.2).on(q00, q01).with_tags(cg.TwoPulseFSimTag()), {"two_pulse_fsim"}),
+        ("FSim", cirq.FSimGate(0.3, 0.2).on(q00, q01), set()),
+        ("M(00,01)", cirq.measure(q00, q01, key="m"), {"meas"}),
+        ("M(00,11)", cirq.measure(q00, q11, key="m"), {"meas"}),
+        ("M(10)", cirq.measure(q10, key="m"), {"meas"}),
+        ("wait(00)", cirq.wait(q00, nanos=5), {"wait"}),
+        ("wait(00,11)", cirq.wait(q00, q11, nanos=5), {"wait"}),
+        ("WGU(01)", cg.ops.WaitGateWithUnit(5 * tu.ns).on(q01), {"wait", "wait_gate_with_unit"}),
+        ("reset", cirq.ResetChannel().on(q00), {"reset"}),
+        ("IG", cg.InternalGate("G", "mod", 1).on(q11), {"internal_gate"}),
+        ("IG2(00,01)", cg.InternalGate("G", "mod", 2).on(q00, q01), {"internal_gate"}),
+        ("Coupler(10,11)", CouplerPulse(hold_time=cirq.Duration(nanos=10), coupling_mhz=25.0).on(q10, q11), {"coupler_pulse"}),
+        ("X(off)", cirq.X(G(5, 5)), {"phased_xz"}),
+        ("CNOT", cirq.CNOT(q00, q01), set()),
+    ]
+    return ops
+
+
+_VARIADIC = (cirq.MeasurementGate, cirq.WaitGate)
+
+
+def make_device_stage(tier):
+    topos = dev_topologies()
+    gsets = dev_gate_sets(tier)
+    cases = []
+    for ti, (qs, edges) in enumerate(topos):
+        for gi in range(len(gsets)):
+            for orient in ((0, 1, 2) if edges else (0,)):
+                for dur in (0, 1, 2):
+                    cases.append((ti, gi, orient, dur))
+    ops = _dev_ops()
+
+    def accepts(dev, op):
+        try:
+            dev.validate_operation(op)
+            return True
+        except ValueError:
+            return False
+
+    def run(case):
+        ti, gi, orient, dur = case
+        qs, edges = topos[ti]
+        kinds = gsets[gi]
+        spec = build_spec(qs, edges, kinds, orient, dur)
+        label = f"qubits={[_qid(DEV_QUBITS[i]) for i in qs]} pairs={edges} gates={kinds} orient={orient} dur={dur}"
+        dev = cg.GridDevice.from_proto(_hop(spec))
+        # the device object describes exactly the spec
+        exp_q = frozenset(DEV_QUBITS[i] for i in qs)
+        exp_p = frozenset(frozenset((DEV_QUBITS[x], DEV_QUBITS[y])) for x, y in edges)
+        if frozenset(dev.metadata.qubit_set) != exp_q:
+            return bad(f"{label}: device qubit_set {sorted(dev.metadata.qubit_set)}", kind="device")
+        if frozenset(dev.metadata.qubit_pairs) != exp_p:
+            return bad(f"{label}: device qubit_pairs {dev.metadata.qubit_pairs}", kind="device")
+        out = dev.to_proto()
+        s_in, s_out = spec_semantics(spec), spec_semantics(_hop(out))
+        if len(set(out.valid_qubits)) != len(out.valid_qubits):
+            return bad(f"{label}: to_proto repeats qubits {list(out.valid_qubits)}", kind="device")
+        if s_in != s_out:
+            return bad(f"{label}: from_proto(p).to_proto() means {s_out}, p means {s_in}", kind="device")
+        dev2 = cg.GridDevice.from_proto(_hop(out))
+        if dev2 != dev or dev != dev2:
+            return bad(f"{label}: from_proto(d.to_proto()) != d", kind="device")
+        out2 = dev2.to_proto()
+        if out2.SerializeToString(deterministic=True) != out.SerializeToString(deterministic=True):
+            return bad(f"{label}: to_proto is not stable:\n{out}\n---\n{out2}", kind="device")
+        if dur == 0:
+            ks = set(kinds)
+            for name, op, ok_kinds in ops:
+                exp = bool(ok_kinds & ks) and all(q in exp_q for q in op.qubits)
+                if exp and len(op.qubits) == 2 and not isinstance(op.gate, _VARIADIC):
+                    exp = frozenset(op.qubits) in exp_p
+                a1, a2 = accepts(dev, op), accepts(dev2, op)
+                if a1 != exp or a2 != exp:
+                    return bad(f"{label}: validate_operation({name}) accepted={a1} (after round trip {a2}), the "
+                               f"specification says {exp}", kind="device_validation")
+        return good(nontrivial=bool(qs) and bool(kinds), devices=1)
+
+    return CaseStage("devices", cases, run)
+
+
+def make_invalid_device_stage():
+    topos = [t for t in dev_topologies() if t[0]]
+    kinds_list = [(), ("cz", "meas")]
+    variants = ["pair_outside", "self_pair", "duplicate_qubit", "non_grid_name", "asymmetric", "attr_unknown_qubit"]
+    cases = [(ti, ki, v) for ti in range(len(topos)) for ki in range(len(kinds_list)) for v in range(len(variants))]
+
+    def run(case):
+        ti, ki, v = case
+        qs, edges = topos[ti]
+        spec = build_spec(qs, edges, kinds_list[ki], 0, 1)
+        q0 = _qid(DEV_QUBITS[qs[0]])
+        var = variants[v]
+        if var == "pair_outside":
+            spec.valid_targets[0].targets.add().ids.extend([q0, "9_9"])
+        elif var == "self_pair":
+            spec.valid_targets[0].targets.add().ids.extend([q0, q0])
+        elif var == "duplicate_qubit":
+            spec.valid_qubits.append(q0)
+        elif var == "non_grid_name":
+            spec.valid_qubits.append("q7")
+        elif var == "asymmetric":
+            spec.valid_targets[0].target_ordering = v2.device_pb2.TargetSet.ASYMMETRIC
+        elif var == "attr_unknown_qubit":
+            spec.qubit_attributes["9_9"].attributes["a"].int_value = 1
+        try:
+            dev = cg.GridDevice.from_proto(spec)
+        except ValueError:
+            return good(nontrivial=True)
+        return bad(f"invalid DeviceSpecification ({var}) accepted: {spec} -> {dev!r}", kind="device_invalid_accepted")
+
+    return CaseStage("devices_invalid", cases, run, describe=lambda c: [list(c), variants[c[2]]])
+
+
+# =============================================================================================
+
+def stages(tier, seed):
+    st = [make_pair_stage(seed), make_decor_stage(seed), make_multi_stage(seed)]
+    if tier == "thorough":
+        st.append(make_triple_stage(seed))
+    st += [make_run_context_stage(seed), make_sweep_v1_stage(seed), make_pack_stage(tier), make_results_stage(), make_find_measurements_stage(),
+           make_device_stage(tier), make_invalid_device_stage()]
+    # stages that currently report suspected Cirq defects come last (each under its own `kind` signature)
+    st += [make_sweep_stage(seed), make_moment_tag_stage(seed), make_letter_stage(seed)]
+    return st
